@@ -438,23 +438,25 @@ def standard_verdict(ctx, proofs_ok, mismatches, oracle_failures, search_fn=None
     """The common decision procedure (DESIGN.md 1.2 step 4).
     oracle_failures: list of dict(name, case, what, signature?) — the property fails on the implementation.
     mismatches: list of (id, impl, model) — the model no longer predicts the implementation.
-    search_fn(): called when only proofs/correspondence broke; returns more oracle_failures."""
-    for f in oracle_failures[:5]:
-        ctx.report_violation(f.get("name", case_hash(json.dumps(f.get("case"), sort_keys=True, default=str))),
-                             dict(case=f.get("case"), kind="failing-input"),
-                             signature=f.get("signature"), what=f.get("what", ""))
-    if oracle_failures:
+    search_fn(): called when only proofs/correspondence broke; returns more oracle_failures.
+    An open known finding only turns the failures carrying ITS signature into KNOWN-FINDING lines; it never
+    hides another oracle failure, a broken proof or a broken correspondence."""
+    def report_all(fails, kind):
+        n0 = len(ctx.violations)
+        for f in fails:
+            if len(ctx.violations) - n0 >= 5:
+                break
+            ctx.report_violation(f.get("name", case_hash(json.dumps(f.get("case"), sort_keys=True, default=str))),
+                                 dict(case=f.get("case"), kind=kind),
+                                 signature=f.get("signature"), what=f.get("what", ""))
+        return len(ctx.violations) - n0
+    if report_all(oracle_failures, "failing-input") > 0:
         return
     if proofs_ok and not mismatches:
         return
     found = search_fn() if search_fn else []
-    if found:
-        for f in found[:5]:
-            ctx.report_violation(f.get("name", case_hash(json.dumps(f.get("case"), sort_keys=True, default=str))),
-                                 dict(case=f.get("case"), kind="failing-input (found by search after a broken proof/correspondence)"),
-                                 signature=f.get("signature"), what=f.get("what", ""))
-        if ctx.violations or ctx.known:
-            return
+    if found and report_all(found, "failing-input (found by search after a broken proof/correspondence)") > 0:
+        return
     broken = {}
     if not proofs_ok:
         pr = ctx.proof or {}
